@@ -223,7 +223,7 @@ func TestVerifC16DuplicateStorm(t *testing.T) {
 				if err := repo.SearchKey(ctx, "pw", 1, ""); err != nil {
 					t.Fatal(err)
 				}
-				if err := repo.LoadIndex(ctx, nil); err != nil {
+				if err := repo.LoadIndex(ctx, restic.NoopTerminalCounterFactory); err != nil {
 					t.Fatal(err)
 				}
 				repo.packerCount = rapid.SampledFrom([]int{1, 2, 4}).Draw(t, "packers2")
@@ -313,7 +313,7 @@ func TestVerifC16DuplicateStorm(t *testing.T) {
 		if err := fresh.SearchKey(ctx, "pw", 1, ""); err != nil {
 			t.Fatal(err)
 		}
-		if err := fresh.LoadIndex(ctx, nil); err != nil {
+		if err := fresh.LoadIndex(ctx, restic.NoopTerminalCounterFactory); err != nil {
 			t.Fatal(err)
 		}
 		desc := fmt.Sprintf("version=%d prior=%s workers=%d perWorker=%d hotFirst=%v distinct=%d", version, prior, workers, perWorker, hotFirst, nDistinct)
